@@ -259,6 +259,9 @@ pub fn install_panic_hook() {
                     .location()
                     .map(|l| format!("{}:{}", l.file(), l.line()))
                     .unwrap_or_default();
+                if std::env::var_os("TRSIM_LOUD").is_some() {
+                    eprintln!("[panic] {} @ {}", msg, loc);
+                }
                 world::try_with(|w| {
                     if w.panics.len() < 8 {
                         w.panics.push(format!("{} @ {}", msg, loc))
